@@ -61,7 +61,14 @@ Proof. exact window_infinite. Qed.
      - psi.get_B(i, f) returns the same tensor before and after, for every i and every full form f,
      - hence the dense object of every window (product of get_B(j, 'B'), exponent exactly 1 on every bond between
        and to the right of its sites) and of the whole chain / unit cell is unchanged.
-   psi.norm is never touched by these operations (it is not part of the model state). *)
+   psi.norm is never touched by these operations (it is not part of the model state).
+   TIE: the functions of Model/MpsDenote.v are executed against the implementation in the correspondence stream
+   `valued` of harness/c07.py (Model/MpsDenoteCheck.v: M = dyadic tensors / diagonal matrices 2^(k_j e), s_j = 4^(k_j)):
+   every step of random histories of convert_form([...]) / set_B(i, get_B(i, f), f) (named and custom forms, sites
+   labelled None, any integer i for infinite bc, deprecated negative / out-of-range i for finite bc) is recomputed with
+   vapply_op and ALL entries of ALL stored tensors plus the labels are compared exactly (also: raises iff the model is
+   undefined); probes get_B(i, form) incl. partial forms against vget_B_at; get_theta(i, n, formL=0, formR=1) on windows
+   (across the unit-cell boundary; the whole chain / unit cell) against window_den. *)
 Theorem T07_convert_preserves_denotation :
   forall (M : Type) (mul : M -> M -> M) (one : M) (sv : Z -> Z -> M),
   (forall a b c : M, mul a (mul b c) = mul (mul a b) c) ->
